@@ -1034,6 +1034,10 @@ def instances(name, tier):
         c = eom(3, cpjt=400)
         c.name = "eom-pjt400-d3"
         out.append(c)
+        # a custom buffer shorter than twice the rise time
+        c = eom(3, custom_buf=48)
+        c.name = "eom-b48-d3"
+        out.append(c)
         return out
     raise KeyError(name)
 
@@ -1076,6 +1080,10 @@ def by_tag(tag):
         return c
     if tag.startswith("phases-"):
         c = phases(int(tag.split("-d")[-1]), wrap="wrap" in tag)
+        c.name = tag
+        return c
+    if tag.startswith("eom-b48"):
+        c = eom(3, custom_buf=48)
         c.name = tag
         return c
     if tag.startswith("eom-pjt400"):
